@@ -28,6 +28,9 @@ class C02(Check):
         for sh in G.ring0_shapes():
             if G.shape_is_wf(sh):
                 add("tx", G.tx_desc(rng, **sh), "tx-empty-ring")
+        for sh in G.big_count_shapes():
+            add("tx", G.tx_desc(rng, **sh), "tx-big-count")
+        add("block", G.block_desc(rng, 16384), "block-16384-hashes")
         for _ in range(1500 if not thorough else 20000):
             sh = G.random_shape(rng, small=True)
             add("tx", G.tx_desc(rng, **sh), "tx-random-type%d" % sh["rct_type"])
